@@ -75,7 +75,128 @@ static int op_tls13_padding(opctx_t *c, obuf_t *o) {
 	ob_put(o, "padding_len", b, 8); set_eph(c, b, 0);
 	return 1;
 }
-static const sysop_t EXTRA_OPS[] = { {"sm2_sign_ctx_multi", op_sm2_sign_ctx_multi, 1, 0}, {"tls_ske_sign", op_tls_ske_sign, 1, 0},
+/* ---- wave 3: every exported entropy-dependent function gets an op (props/C18/run.py enumerates them from the table
+ *      and fails loudly when one is reached by no op) */
+#include <gmssl/x509_req.h>
+#include <gmssl/x509_crl.h>
+#include <gmssl/sm3_xmss.h>
+static int op_sm9_sign_master_keygen(opctx_t *c, obuf_t *o) {
+	SM9_SIGN_MASTER_KEY m; uint8_t b[129];
+	if (sm9_sign_master_key_generate(&m) != 1) return -1;
+	sm9_z256_twist_point_to_uncompressed_octets(&m.Ppubs, b); ob_put(o, "Ppubs", b, 129); set_eph(c, b, 129);
+	return 1;
+}
+static int op_sm9_enc_master_keygen(opctx_t *c, obuf_t *o) {
+	SM9_ENC_MASTER_KEY m; uint8_t b[65];
+	if (sm9_enc_master_key_generate(&m) != 1) return -1;
+	sm9_z256_point_to_uncompressed_octets(&m.Ppube, b); ob_put(o, "Ppube", b, 65); set_eph(c, b, 65);
+	return 1;
+}
+#define SM9_INFO_OP(NAME, TYPE, FIELD, ENC_DER, DEC_DER, ENC_PEM, DEC_PEM) \
+static int op_##NAME##_der(opctx_t *c, obuf_t *o) { \
+	uint8_t der[1024]; uint8_t *p = der; size_t dl = 0, l; const uint8_t *cp = der; TYPE k2; \
+	if (prepare9(c) != 1) return -9; \
+	if (ENC_DER(&c->FIELD, c->pass, &p, &dl) != 1) return -1; \
+	ob_put(o, "epki", der, dl); set_eph(c, der, dl < 160 ? dl : 160); \
+	l = dl; memset(&k2, 0, sizeof k2); \
+	if (DEC_DER(&k2, c->pass, &cp, &l) != 1) return -2; \
+	return 1; } \
+static int op_##NAME##_pem(opctx_t *c, obuf_t *o) { \
+	FILE *fp; char buf[2048]; size_t n; TYPE k2; int r = 1; \
+	if (prepare9(c) != 1) return -9; \
+	if (!(fp = tmpfile())) return -9; \
+	if (ENC_PEM(&c->FIELD, c->pass, fp) != 1) r = -1; \
+	if (r == 1) { fflush(fp); rewind(fp); n = fread(buf, 1, sizeof buf, fp); ob_put(o, "pem", buf, n); set_eph(c, buf + 40, n > 200 ? 160 : 0); \
+		rewind(fp); memset(&k2, 0, sizeof k2); if (DEC_PEM(&k2, c->pass, fp) != 1) r = -2; } \
+	fclose(fp); return r; }
+SM9_INFO_OP(sm9_smk_info, SM9_SIGN_MASTER_KEY, s9sm, sm9_sign_master_key_info_encrypt_to_der, sm9_sign_master_key_info_decrypt_from_der,
+	sm9_sign_master_key_info_encrypt_to_pem, sm9_sign_master_key_info_decrypt_from_pem)
+SM9_INFO_OP(sm9_sk_info, SM9_SIGN_KEY, s9sk, sm9_sign_key_info_encrypt_to_der, sm9_sign_key_info_decrypt_from_der,
+	sm9_sign_key_info_encrypt_to_pem, sm9_sign_key_info_decrypt_from_pem)
+SM9_INFO_OP(sm9_emk_info, SM9_ENC_MASTER_KEY, s9em, sm9_enc_master_key_info_encrypt_to_der, sm9_enc_master_key_info_decrypt_from_der,
+	sm9_enc_master_key_info_encrypt_to_pem, sm9_enc_master_key_info_decrypt_from_pem)
+SM9_INFO_OP(sm9_ek_info, SM9_ENC_KEY, s9ekA, sm9_enc_key_info_encrypt_to_der, sm9_enc_key_info_decrypt_from_der,
+	sm9_enc_key_info_encrypt_to_pem, sm9_enc_key_info_decrypt_from_pem)
+static int op_sm2_pkcs8_pem(opctx_t *c, obuf_t *o) {
+	FILE *fp; char buf[2048]; size_t n; SM2_KEY k2; int r = 1;
+	if (!(fp = tmpfile())) return -9;
+	if (sm2_private_key_info_encrypt_to_pem(&c->sm2, c->pass, fp) != 1) r = -1;
+	if (r == 1) { fflush(fp); rewind(fp); n = fread(buf, 1, sizeof buf, fp); ob_put(o, "pem", buf, n); set_eph(c, buf + 40, n > 200 ? 160 : 0);
+		rewind(fp); if (sm2_private_key_info_decrypt_from_pem(&k2, c->pass, fp) != 1 || memcmp(k2.private_key, c->sm2.private_key, 32)) r = -2; }
+	fclose(fp); return r;
+}
+static int op_x509_req_sign(opctx_t *c, obuf_t *o) {
+	uint8_t req[1024]; uint8_t *p = req; size_t l = 0; static const uint8_t attrs[2] = {0x30, 0x00};   /* the encoder refuses an absent attribute set */
+	if (x509_req_sign_to_der(X509_version_v1, c->name, c->namelen, &c->sm2, attrs, sizeof attrs, OID_sm2sign_with_sm3, &c->sm2, SM2_DEFAULT_ID, SM2_DEFAULT_ID_LENGTH, &p, &l) != 1) return -1;
+	ob_put(o, "req", req, l); set_eph(c, req + (l > 72 ? l - 72 : 0), l > 72 ? 72 : l);
+	if (x509_req_verify(req, l, SM2_DEFAULT_ID, SM2_DEFAULT_ID_LENGTH) != 1) return -2;
+	return 1;
+}
+static int op_x509_crl_sign(opctx_t *c, obuf_t *o) {
+	uint8_t crl[1024]; uint8_t *p = crl; size_t l = 0; const uint8_t *iss; size_t issl;
+	if (x509_cert_get_subject(c->cert, c->certlen, &iss, &issl) != 1) return -9;
+	if (x509_crl_sign_to_der(X509_version_v2, OID_sm2sign_with_sm3, iss, issl, 1700000000, 1700000000 + 86400 * 30, NULL, 0, NULL, 0,
+		&c->sm2, SM2_DEFAULT_ID, SM2_DEFAULT_ID_LENGTH, &p, &l) != 1) return -1;
+	ob_put(o, "crl", crl, l); set_eph(c, crl + (l > 72 ? l - 72 : 0), l > 72 ? 72 : l);
+	if (x509_crl_verify_by_ca_cert(crl, l, c->cert, c->certlen, SM2_DEFAULT_ID, SM2_DEFAULT_ID_LENGTH) != 1) return -2;
+	return 1;
+}
+static int op_cms_sign_envelop(opctx_t *c, obuf_t *o) {
+	uint8_t *cms = malloc(8192); size_t cl = 0; CMS_CERTS_AND_KEY sg; int r = 1; int ct; uint8_t content[512]; size_t contentlen = 0;
+	const uint8_t *ri, *si, *sc, *scr, *s1, *s2; size_t ril, sil, scl, scrl, s1l, s2l;
+	sg.certs = c->cert; sg.certs_len = c->certlen; sg.sign_key = &c->sm2;
+	if (cms_sign_and_envelop(cms, &cl, &sg, 1, c->peercert, c->peercertlen, OID_sm4_cbc, c->symkey, 16, c->iv, 16, OID_cms_data, c->msg, c->msglen,
+		NULL, 0, NULL, 0, NULL, 0) != 1) r = -1;
+	if (r == 1) {
+		ob_put(o, "cms", cms, cl); set_eph(c, cms, cl < 500 ? cl : 500);
+		if (cms_deenvelop_and_verify(cms, cl, &c->peer, c->peercert, c->peercertlen, NULL, 0, NULL, 0, &ct, content, &contentlen, &ri, &ril, &si, &sil,
+			&sc, &scl, &scr, &scrl, &s1, &s1l, &s2, &s2l) != 1 || contentlen < c->msglen || memcmp(content + contentlen - c->msglen, c->msg, c->msglen)) r = -2;
+	}
+	free(cms);
+	return r;
+}
+static int op_cms_rcpt_info(opctx_t *c, obuf_t *o) {
+	uint8_t d[1024]; size_t dl = 0, l; const uint8_t *iss, *ser, *cp = d; size_t issl, serl; uint8_t key[64]; size_t kl = 0;
+	if (x509_cert_get_issuer_and_serial_number(c->peercert, c->peercertlen, &iss, &issl, &ser, &serl) != 1) return -9;
+	if (cms_recipient_infos_add_recipient_info(d, &dl, sizeof d, &c->peer, iss, issl, ser, serl, c->symkey, 16) != 1) return -1;
+	ob_put(o, "rcpt", d, dl); set_eph(c, d, dl < 300 ? dl : 300);
+	l = dl;
+	if (cms_recipient_info_decrypt_from_der(&c->peer, iss, issl, ser, serl, key, &kl, sizeof key, &cp, &l) != 1 || kl != 16 || memcmp(key, c->symkey, 16)) return -2;
+	return 1;
+}
+static int op_sm2_enc_precomp(opctx_t *c, obuf_t *o) {
+	SM2_ENC_PRE_COMP pre[SM2_ENC_PRE_COMP_NUM]; SM2_CIPHERTEXT ct; uint8_t der[SM2_MAX_CIPHERTEXT_SIZE]; uint8_t *p = der; size_t dl = 0; uint8_t pt[SM2_MAX_PLAINTEXT_SIZE]; size_t pl = 0;
+	if (sm2_encrypt_pre_compute(pre) != 1) return -1;
+	if (sm2_do_encrypt_ex(&c->sm2, &pre[SM2_ENC_PRE_COMP_NUM - 1], c->msg, c->msglen, &ct) != 1) return -1;
+	if (sm2_ciphertext_to_der(&ct, &p, &dl) != 1) return -9;
+	ob_put(o, "ct", der, dl); set_eph(c, &ct.point, 64);
+	if (sm2_decrypt(&c->sm2, der, dl, pt, &pl) != 1 || pl != c->msglen || memcmp(pt, c->msg, pl)) return -2;
+	return 1;
+}
+static int op_sm9_fp12_rand(opctx_t *c, obuf_t *o) {
+	sm9_z256_fp12_t r; uint8_t b[384];
+	if (sm9_z256_fp12_rand(r) != 1) return -1;
+	sm9_z256_fp12_to_bytes(r, b); ob_put(o, "fp12", b, 384); set_eph(c, b, 384);
+	return 1;
+}
+static int op_xmss_keygen(opctx_t *c, obuf_t *o) {
+	SM3_XMSS_KEY k; uint8_t pub[256]; size_t pl = sizeof pub; int r = 1;
+	memset(&k, 0, sizeof k);
+	if (sm3_xmss_key_generate(&k, XMSS_SM3_10) != 1) return -1;
+	if (sm3_xmss_public_key_to_bytes(&k, pub, &pl) != 1) r = -9;
+	else { ob_put(o, "xmss-pub", pub, pl); set_eph(c, pub, pl); }
+	sm3_xmss_key_cleanup(&k);
+	return r;
+}
+static const sysop_t EXTRA_OPS[] = {
+	{"sm9_sign_master_keygen", op_sm9_sign_master_keygen, 1, 1}, {"sm9_enc_master_keygen", op_sm9_enc_master_keygen, 1, 1},
+	{"sm9_smk_info_der", op_sm9_smk_info_der, 1, 1}, {"sm9_smk_info_pem", op_sm9_smk_info_pem, 1, 1},
+	{"sm9_sk_info_der", op_sm9_sk_info_der, 1, 1}, {"sm9_sk_info_pem", op_sm9_sk_info_pem, 1, 1},
+	{"sm9_emk_info_der", op_sm9_emk_info_der, 1, 1}, {"sm9_emk_info_pem", op_sm9_emk_info_pem, 1, 1},
+	{"sm9_ek_info_der", op_sm9_ek_info_der, 1, 1}, {"sm9_ek_info_pem", op_sm9_ek_info_pem, 1, 1},
+	{"sm2_pkcs8_pem", op_sm2_pkcs8_pem, 1, 1}, {"x509_req_sign", op_x509_req_sign, 1, 0}, {"x509_crl_sign", op_x509_crl_sign, 1, 0},
+	{"cms_sign_envelop", op_cms_sign_envelop, 1, 0}, {"cms_rcpt_info", op_cms_rcpt_info, 1, 0}, {"sm2_enc_precomp", op_sm2_enc_precomp, 1, 0}, {"sm9_fp12_rand", op_sm9_fp12_rand, 1, 0},
+	{"xmss_keygen", op_xmss_keygen, 1, 1}, {"sm2_sign_ctx_multi", op_sm2_sign_ctx_multi, 1, 0}, {"tls_ske_sign", op_tls_ske_sign, 1, 0},
 	{"tls13_cv_sign", op_tls13_cv_sign, 1, 0}, {"tls13_padding", op_tls13_padding, 1, 0} };
 static const sysop_t *find_op2(const char *n) { size_t i; for (i = 0; i < sizeof EXTRA_OPS / sizeof EXTRA_OPS[0]; i++) if (!strcmp(n, EXTRA_OPS[i].name)) return &EXTRA_OPS[i]; return find_op(n); }
 
